@@ -71,6 +71,12 @@ pub fn run(rep: &mut Report) {
     ties::<Q8E0>(rep, h8 / 2);
     ties::<Q16E1>(rep, h16);
     ties::<Q32E2>(rep, h32);
+    if tier == Tier::Thorough {
+        // long histories: up to 96 steps (Q8 may leave its range: such steps are dropped by the interpreter and counted)
+        rep.generated("Q8E0 long histories (<= 96 steps)", 100_000, || history::<P8E0>(false, 96), |(steps, perm), l| run_history::<Q8E0>(steps, *perm, &FL, l));
+        rep.generated("Q16E1 long histories (<= 96 steps)", 100_000, || history::<P16E1>(false, 96), |(steps, perm), l| run_history::<Q16E1>(steps, *perm, &FL, l));
+        rep.generated("Q32E2 long histories (<= 96 steps)", 100_000, || history::<P32E2>(false, 96), |(steps, perm), l| run_history::<Q32E2>(steps, *perm, &FL, l));
+    }
     hist::<Q8E0>(rep, h8);
     hist::<Q16E1>(rep, h16);
     hist::<Q32E2>(rep, h32);
